@@ -35,9 +35,12 @@ func H_C19_flags() {
 	fv := flag.NewFlagKeyValue(nil, true, opts...)
 	ref := ucfg.New()
 	var refErr error
+	// thorough: sequences of three arguments over a reduced table of value texts, next to the quick family
 	n := 2
-	if verif.Tier() > 0 {
+	vals := c19Vals
+	if verif.Tier() > 0 && verif.Choice("family", 2) == 1 {
 		n = 3
+		vals = []string{"1", "str", "[1,2]", "{k: v}", "null", "", "[1", "u=v"}
 	}
 	for i := 0; i < n; i++ {
 		p := "arg" + itoa(i)
@@ -49,7 +52,7 @@ func H_C19_flags() {
 		var perr error
 		switch form {
 		case 0:
-			txt := c19Vals[verif.Choice(p+".val", len(c19Vals))]
+			txt := vals[verif.Choice(p+".val", len(vals))]
 			arg = key + "=" + txt
 			if txt == "" {
 				skip = true
